@@ -638,11 +638,12 @@ impl Case {
 struct Board {
     victim_connect_failed: bool,
     victim_run: Option<String>,
+    victim_conn: Option<String>,
     peer_run: Option<String>,
+    peer_conn: Option<String>,
     peer_ok: Option<bool>,
     idle_done: bool,
     acted: bool,
-    version: u32,
 }
 
 struct Outcome {
@@ -653,6 +654,7 @@ struct Outcome {
     polls: usize,
     fired: bool,
     run_class: String,
+    conn_class: String,
     op_kinds: [usize; 3],
     labelled: usize,
 }
@@ -738,8 +740,13 @@ fn run_case(c: &Case) -> Outcome {
                 let r = client.run().await;
                 b3.borrow_mut().peer_run = Some(run_class(&r));
             })));
+            let b5 = b2.clone();
             sp2.borrow_mut().push(("peer_conn", Box::pin(async move {
-                let _ = conn.run().await;
+                let r = conn.run().await;
+                b5.borrow_mut().peer_conn = Some(match r {
+                    Ok(()) => "ok".into(),
+                    Err(e) => format!("{e:?}").chars().take(60).collect(),
+                });
             })));
             let o = h.create_object(ObjectUuid(Uuid::from_u128(1))).await.expect("peer object");
             let mut s = o.create_service(ServiceUuid(Uuid::from_u128(2)), ServiceInfo::new(0)).await.expect("peer service");
@@ -809,8 +816,14 @@ fn run_case(c: &Case) -> Outcome {
             if let Some(conn) = conn {
                 *conn_handle.borrow_mut() = Some(conn.handle().clone());
                 let ca = conn_abort.clone();
+                let b4 = b2.clone();
                 sp2.borrow_mut().push(("victim_conn", Box::pin(async move {
-                    let _ = race(conn.run(), &ca).await;
+                    let r = race(conn.run(), &ca).await;
+                    b4.borrow_mut().victim_conn = Some(match r {
+                        None => "dropped".into(),
+                        Some(Ok(())) => "ok".into(),
+                        Some(Err(e)) => format!("{e:?}").chars().take(60).collect(),
+                    });
                 })));
             }
             let client: Client<Faulty> = match client {
@@ -902,7 +915,6 @@ fn run_case(c: &Case) -> Outcome {
                     }
                 }
                 Kind::ConnDrop => conn_abort.set(),
-                _ => {}
             }
         })));
     }
@@ -933,7 +945,7 @@ fn run_case(c: &Case) -> Outcome {
     drop(bh);
 
     let mut stop = ex.run(&mut rng, 400_000);
-    if (c.kind == Kind::None || (c.kind.is_fault() && sh.injected_at.get().is_none()))
+    if (!c.kind.is_fault() && !b.borrow().acted || (c.kind.is_fault() && sh.injected_at.get().is_none()))
         && matches!(stop, Stop::Quiescent)
         && !ex.pending().is_empty()
     {
@@ -971,30 +983,44 @@ fn run_case(c: &Case) -> Outcome {
         _ => vec!["ok".to_string()],
     };
     if !expect.contains(&run_s) {
-        problems.push(format!("run() returned {run_s}, expected one of {:?}", expect));
+        if matches!(c.kind, Kind::Broker) && run_s == "transport:Peer" && bb.victim_conn.as_deref() == Some("UnexpectedShutdown") {
+            // the broker was shut down cleanly, but its Connection task returned UnexpectedShutdown
+            // while forwarding a client message and never delivered the queued Shutdown
+            problems.insert(0, format!(
+                "clean-broker-shutdown-unclean: BrokerHandle::shutdown(): Client::run() returned {run_s} instead of Ok(()); \
+                 broker-side Connection::run() = Err(UnexpectedShutdown) (broker/src/conn.rs: send_broker_msg(..).await? after Broker::run returned)"
+            ));
+        } else {
+            problems.push(format!("wrong-result: run() returned {run_s}, expected one of {:?}", expect));
+        }
     }
     if fired && run_s == "connect_failed" && sh.logging.get() {
-        problems.push("connect failed although the client was built".into());
+        problems.push("wrong-result: connect failed although the client was built".into());
     }
     if !bb.victim_connect_failed {
         let aborted = app_abort.is_set();
         if !aborted && app_completed.get() != napps {
-            problems.push(format!("application: {} of {napps} tasks ran to completion (a pending operation never resolved)", app_completed.get()));
+            problems.push(format!("hang: application: {} of {napps} tasks ran to completion (a pending operation never resolved)", app_completed.get()));
         }
         for (what, failed_fast) in late.borrow().iter() {
             if !failed_fast {
-                problems.push(format!("operation {what} started after run() returned did not fail with Error::Shutdown"));
+                problems.push(format!("late-operation: {what} started after run() returned did not fail with Error::Shutdown"));
             }
         }
     }
     if c.kind != Kind::Broker && bb.peer_ok != Some(true) {
-        problems.push(format!("peer not served after the victim stopped ({:?})", bb.peer_ok));
+        problems.push(format!("peer-not-served: after the victim stopped ({:?})", bb.peer_ok));
     }
     if bb.peer_run.as_deref() != Some("ok") {
-        problems.push(format!("peer run() = {:?}", bb.peer_run));
+        if matches!(c.kind, Kind::Broker) && bb.peer_run.as_deref() == Some("transport:Disconnected") && bb.peer_conn.as_deref() == Some("UnexpectedShutdown") {
+            problems.insert(0, "clean-broker-shutdown-unclean: BrokerHandle::shutdown(): the peer's Client::run() returned transport:Disconnected instead of Ok(()); \
+                 its broker-side Connection::run() = Err(UnexpectedShutdown) (broker/src/conn.rs: send_broker_msg(..).await? after Broker::run returned)".to_string());
+        } else {
+            problems.push(format!("peer-result: peer run() = {:?} (broker side {:?})", bb.peer_run, bb.peer_conn));
+        }
     }
     if !bb.idle_done {
-        problems.push("broker did not become idle (the victim's connection was not removed)".into());
+        problems.push("broker-not-idle: shutdown_idle did not complete (the victim's connection was not removed)".into());
     }
 
     // ---------------------------------------------------------------- summary for the correspondence
@@ -1038,6 +1064,7 @@ fn run_case(c: &Case) -> Outcome {
         polls: ex.polls,
         fired,
         run_class: run_s,
+        conn_class: bb.victim_conn.clone().unwrap_or_else(|| "none".into()),
         op_kinds: opk,
         labelled,
     }
@@ -1054,6 +1081,7 @@ fn run_case_caught(c: &Case) -> Outcome {
             polls: 0,
             fired: false,
             run_class: "panic".into(),
+            conn_class: "panic".into(),
             op_kinds: [0; 3],
             labelled: 0,
         },
@@ -1084,7 +1112,7 @@ fn main() {
                 println!("{l}");
             }
             println!("# {}", o.summary);
-            println!("# ops={} polls={} fired={} run={}", o.ops, o.polls, o.fired, o.run_class);
+            println!("# ops={} polls={} fired={} run={} broker_side_connection={}", o.ops, o.polls, o.fired, o.run_class, o.conn_class);
             for p in &o.problems {
                 println!("PROBLEM {p}");
             }
@@ -1129,7 +1157,9 @@ fn main() {
                         writeln!(mon_f, "{}\t{} none 0 {}\t{}", o.problems[0].split(':').next().unwrap_or("problem"), SCENARIOS[scenario], seed0.wrapping_mul(977).wrapping_add(s), o.problems.join(" | ")).unwrap();
                     }
                 }
-                maxops.insert(SCENARIOS[scenario], total);
+                if shard == 0 {
+                    maxops.insert(SCENARIOS[scenario], total);
+                }
                 let kinds = [Kind::Err, Kind::Eof, Kind::Shutdown, Kind::LastDrop, Kind::Broker, Kind::ConnClose, Kind::ConnDrop];
                 for kind in kinds {
                     for k in 0..=total + 1 {
